@@ -5,7 +5,7 @@ pid = sys.argv[1]
 wt = f"/tmp/wt3-{pid}"
 out = f"/tmp/seed-out3/{pid}"
 avoid = []
-cut = re.compile(r"\s*[;:.,(—-]\s*(missed|detected|NOT detected|not detected|patch rebased|only visible|deterministic|Not reached|a sequential content-integrity|needs a schedule|the root cause|needs an injected|which C[0-9][0-9]|reported by|C[0-9][0-9] )", re.S)
+cut = re.compile(r"\s*[;:.,(—-]\s*(missed|detected|NOT detected|not detected|patch rebased|only visible|deterministic|Not reached|a sequential content-integrity|needs a schedule|the root cause|this first|first broke|first stalled|needs an injected|which C[0-9][0-9]|reported by|C[0-9][0-9] )", re.S)
 for d in sorted(glob.glob(f"/verif/seeded/{pid}-m*")):
     try:
         t = json.load(open(d + "/meta.json"))["needs_to_manifest"]
